@@ -756,7 +756,8 @@ class ShapedSliceIndexer(Indexer):
         if self._src_shape is not None:
             start = self._slice.start
             stop = self._slice.stop
-            sz = shape_to_len(self._dist_shape)
+            # a slice applies to the first dimension of the source only
+            sz = self._dist_shape[0] if self._dist_shape else shape_to_len(self._dist_shape)
             if start != stop and ((start is not None and (start >= sz or start < -sz)
                                   or (stop is not None and (stop > sz or stop < -sz)))):
                 raise IndexError(f"{self._slice} is out of bounds of the source shape "
